@@ -120,6 +120,11 @@ func (f *leaseFacade) CasByVersion(ctx context.Context, r kvs.Record) (kvs.Recor
 		f.s.log(map[string]any{"e": "cas", "p": f.p, "res": "lost", "exp": 0, "n": n})
 		return kvs.Record{}, errInjected
 	}
+	if err := ctx.Err(); err != nil {
+		// a store that looks at the caller's context first, as every network client does: nothing reaches it
+		f.s.log(map[string]any{"e": "cas", "p": f.p, "res": "ctxdone", "exp": 0, "n": n})
+		return kvs.Record{}, err
+	}
 	f.s.mu.Lock()
 	rec, err := f.s.backing.CasByVersion(ctx, r)
 	res := "ok"
@@ -261,6 +266,8 @@ type leaseScenario struct {
 	Pair    bool   // the fault hits two consecutive renewal calls
 	Mix     int    // lease lengths of the other parties: 0 same, 1 three times longer, 2 four times shorter
 	Distant bool   // an unrelated, much later timer is pending (and the dispatcher asleep towards it) when the lock is acquired
+	CtxAcq  bool   // the holder acquires through LockWithCtx and its context ends right after the lock was granted (the usual
+	// "wait at most so long for the lock" idiom): the lock is held until Unlock all the same, its lease is kept
 	Down    bool   // the holder's provider is shut down while the lock is held; the next renewal then fails transiently
 }
 
@@ -284,7 +291,15 @@ func runLeaseScenario(sc leaseScenario) (*leaseSys, bool) {
 		time.Sleep(30 * time.Millisecond) // let the dispatcher go to sleep towards it
 	}
 	holderDown := false
-	if !holder.locker.TryLock(context.Background()) {
+	if sc.CtxAcq {
+		cctx, ccancel := context.WithTimeout(context.Background(), 5*time.Second)
+		err := holder.locker.LockWithCtx(cctx)
+		ccancel()
+		if err != nil {
+			s.log(map[string]any{"e": "harness-error", "what": "initial LockWithCtx failed"})
+			return s, false
+		}
+	} else if !holder.locker.TryLock(context.Background()) {
 		s.log(map[string]any{"e": "harness-error", "what": "initial TryLock failed"})
 		return s, false
 	}
@@ -854,6 +869,7 @@ func driveLease(opt *Options) error {
 			scs = append(scs, leaseScenario{Kind: "hold", TTL: ttl, Periods: 4, Mix: 2})
 			scs = append(scs, leaseScenario{Kind: "handoff", TTL: ttl, Phase: 6, Mix: 2})
 			scs = append(scs, leaseScenario{Kind: "hold", TTL: ttl, Periods: 5, Down: true})
+			scs = append(scs, leaseScenario{Kind: "hold", TTL: ttl, Periods: 4, CtxAcq: true})
 			scs = append(scs, leaseScenario{Kind: "slowreply", TTL: ttl, Periods: 1, Phase: 3})
 			scs = append(scs, leaseScenario{Kind: "unlockmid", TTL: ttl})
 			scs = append(scs, leaseScenario{Kind: "sharedhandoff", TTL: ttl, Phase: 2})
